@@ -175,6 +175,16 @@ Definition remove_analyses (w : world) (l : list fid) : world :=
 
 (* ------------------------------------------------------------------ add_file / update_file / close_file *)
 
+(* one more invalidation, accumulated in the HashSet of invalidated files *)
+Definition inv_step (fuel : nat) (st : res (world * list fid)) (g : fid) : res (world * list fid) :=
+  match st with
+  | Crash x => Crash x
+  | Ok (w', inv) => match invalidate fuel w' g with
+                    | Crash x => Crash x
+                    | Ok (w'', l) => Ok (w'', union_set inv l)
+                    end
+  end.
+
 Definition add_file (fuel : nat) (w : world) (p : path) (c : content) : res (world * fid * list fid) :=
   let failed_to_import := w_failed w p in
   let w0 := set_failed w (upd (w_failed w) p []) in
@@ -182,15 +192,7 @@ Definition add_file (fuel : nat) (w : world) (p : path) (c : content) : res (wor
   match invalidate fuel w1 id with
   | Crash x => Crash x
   | Ok (w2, l1) =>
-      let step st g :=
-        match st with
-        | Crash x => Crash x
-        | Ok (w', inv) => match invalidate fuel w' g with
-                          | Crash x => Crash x
-                          | Ok (w'', l) => Ok (w'', union_set inv l)
-                          end
-        end in
-      match fold_left step (pick failed_to_import) (Ok (w2, union_set failed_to_import l1)) with
+      match fold_left (inv_step fuel) (pick failed_to_import) (Ok (w2, union_set failed_to_import l1)) with
       | Crash x => Crash x
       | Ok (w3, inv) =>
           let w4 := remove_analyses w3 inv in
@@ -271,6 +273,51 @@ Definition complete_typechecking (w : world) (f : fid) : world :=
   | None => w
   end.
 
+(* typecheck_uncached, first half: fill_analysis (the resolver walks the imports of the parsed
+   text [src]), the analysis goes to state Typechecking, the freshly parsed imports are inserted,
+   associate_failed_import, and the file's own diagnostics are cached *)
+Definition own_of (src : content) (err : option diag) : list diag :=
+  match err with
+  | Some d => [d]
+  | None => if is_terr src then [DType] else []
+  end.
+
+Definition ins_news (w : world) (news : list (fid * analysis)) : world :=
+  fold_left (fun w' (ta : fid * analysis) => set_an w' (upd (w_an w') (fst ta) (Some (snd ta)))) news w.
+
+Definition fill_block (w : world) (f : fid) (src : content) : world * list diag :=
+  let '(w1, news, err) := fold_left (resolve_one f) (c_imports src) (w, [], None) in
+  let own := own_of src err in
+  let w2 := set_an w1 (upd (w_an w1) f (Some (mkA Typechecking src []))) in
+  let w3 := ins_news w2 news in
+  let w4 := match err with
+            | Some (DMissing p) => set_failed w3 (upd (w_failed w3) p (add_set f (w_failed w3 p)))
+            | _ => w3
+            end in
+  (add_tdiags w4 f own, own).
+
+(* typecheck_uncached, second half: one iteration of the loop over import_data.imports(file_id);
+   [tc] is the recursive call World::typecheck *)
+Definition loop_step (tc : world -> fid -> res (world * list diag))
+                     (st : res (world * list diag)) (t : fid) : res (world * list diag) :=
+  match st with
+  | Crash x => Crash x
+  | Ok (w', ds) =>
+      match w_files w' t with
+      | None => Ok (w', ds)
+      | Some (pt, _) =>
+          match w_an w' t with
+          | None => Crash Panic                            (* has_parsing_errors.unwrap() (debug build) *)
+          | Some at_ =>
+              if is_perr (a_src at_) then Ok (w', ds ++ [DImpParse pt])
+              else match tc w' t with
+                   | Crash x => Crash x
+                   | Ok (w'', dt) => Ok (w'', if is_nil dt then ds else ds ++ [DImpType pt])
+                   end
+          end
+      end
+  end.
+
 Fixpoint typecheck (fuel : nat) (w : world) (f : fid) : res (world * list diag) :=
   match fuel with
   | 0 => Crash Overflow
@@ -284,42 +331,8 @@ Fixpoint typecheck (fuel : nat) (w : world) (f : fid) : res (world * list diag) 
               match a_state a with
               | Typechecking | Typechecked => Ok (w, a_tdiags a)
               | Parsed =>
-                  (* typecheck_uncached: fill_analysis *)
-                  let src := a_src a in
-                  let '(w1, news, err) := fold_left (resolve_one f) (c_imports src) (w, [], None) in
-                  let own := match err with
-                             | Some d => [d]
-                             | None => if is_terr src then [DType] else []
-                             end in
-                  let w2 := set_an w1 (upd (w_an w1) f (Some (mkA Typechecking src []))) in
-                  let w3 := fold_left (fun w' (ta : fid * analysis) =>
-                                         set_an w' (upd (w_an w') (fst ta) (Some (snd ta)))) news w2 in
-                  (* associate_failed_import *)
-                  let w4 := match err with
-                            | Some (DMissing p) => set_failed w3 (upd (w_failed w3) p (add_set f (w_failed w3 p)))
-                            | _ => w3
-                            end in
-                  let w5 := add_tdiags w4 f own in
-                  (* the loop over import_data.imports(file_id) *)
-                  let loop st t :=
-                    match st with
-                    | Crash x => Crash x
-                    | Ok (w', ds) =>
-                        match w_files w' t with
-                        | None => Ok (w', ds)
-                        | Some (pt, _) =>
-                            match w_an w' t with
-                            | None => Crash Panic          (* has_parsing_errors.unwrap() (debug build) *)
-                            | Some at_ =>
-                                if is_perr (a_src at_) then Ok (w', ds ++ [DImpParse pt])
-                                else match typecheck k w' t with
-                                     | Crash x => Crash x
-                                     | Ok (w'', dt) => Ok (w'', if is_nil dt then ds else ds ++ [DImpType pt])
-                                     end
-                            end
-                        end
-                    end in
-                  match fold_left loop (pick (w_imports w5 f)) (Ok (w5, [])) with
+                  let '(w5, own) := fill_block w f (a_src a) in
+                  match fold_left (loop_step (typecheck k)) (pick (w_imports w5 f)) (Ok (w5, [])) with
                   | Crash x => Crash x
                   | Ok (w6, idiags) =>
                       match w_an w6 f with
